@@ -17,6 +17,7 @@ CONSTANTS
   AllowIoError = FALSE
   AllowResume = FALSE
   ForgetUncreated = FALSE
+  LockPerName = FALSE
   MaxInterrupts = 3
 INVARIANT Inside
 INVARIANT RegularName
